@@ -140,6 +140,10 @@ type c03Prog struct {
 	end   string // what it prints after all input (END rules)
 }
 
+// programs that keep earlier documents: for the k-th value they print their units for the
+// values 1..k ("cumulative") or for the values k-1 and k ("window")
+var c03Keeps = map[int]string{11: "cumulative", 12: "window"}
+
 var c03Programs = []c03Prog{
 	{`BEGINFILE { print "bf", $file } { print "v", $ } ENDFILE { print "ef" }`, nil, "", ""},
 	{`{ print }`, nil, "", ""},
@@ -154,6 +158,10 @@ var c03Programs = []c03Prog{
 	// output through printf only (another code path to stdout than print), and mixed
 	{`{ printf("v %v\n", $) }`, nil, "", ""},
 	{`BEGIN { printf("begin\n") } { printf("a %v|", $); print "b" } ENDFILE { printf("ef\n") }`, nil, "begin\n", ""},
+	// a program that keeps every document it has seen and prints them all again for each new
+	// one: an earlier value stays what it was when later values are read
+	{`BEGINFILE { keep.push($) ; for (d in keep) { print d } }`, nil, "", ""},
+	{`BEGINFILE { prev = cur ; cur = $ ; if (prev is unknown) { print cur } else { print prev ; print cur } }`, nil, "", ""},
 }
 
 // c03Unit runs the program on a single value and returns its output (the unit of
@@ -190,8 +198,29 @@ func c03Check(c *C03Case) string {
 		optionalLast = true
 	}
 	expectErr := fault || ioFault
+	// upTo: the output for the first n values (without the END part)
+	upTo := func(n int) string {
+		switch c03Keeps[c.Prog] {
+		case "cumulative":
+			s := begin
+			for k := 0; k < n; k++ {
+				s += strings.Join(units[:k+1], "")
+			}
+			return s
+		case "window":
+			s := begin
+			for k := 0; k < n; k++ {
+				if k > 0 {
+					s += units[k-1]
+				}
+				s += units[k]
+			}
+			return s
+		}
+		return begin + strings.Join(units[:n], "")
+	}
 	mk := func(n int) string {
-		s := begin + strings.Join(units[:n], "")
+		s := upTo(n)
 		if !expectErr {
 			s += end
 		}
@@ -216,7 +245,7 @@ func c03Check(c *C03Case) string {
 		rd.onBarrier = func(k int) {
 			// the decoder wants bytes beyond value k (+1): everything up to and
 			// including value k must already be written
-			want := begin + strings.Join(units[:k+1], "")
+			want := upTo(k + 1)
 			if barrierMsg == "" && !strings.HasPrefix(out.String(), want) {
 				barrierMsg = fmt.Sprintf("value %d (%s) and one following byte had been read, but its output was not written before the reader was asked for more\n written so far: %q\n expected at least: %q", k+1, clip(vals[k].text), clip(out.String()), clip(want))
 			}
